@@ -22,6 +22,10 @@ TRUSTED_BASE = [
     "generation >= 0 / not decremented is modelled), reflect / apiequality.Semantic.DeepEqual on the API structs, the JSON codec",
 ]
 ASSUMPTIONS = [
+    "leaf cases: the difference between stored and submitted spec ranges over every real leaf field of "
+    "UpstreamClusterSpec / RateLimitSpec (enumerated reflectively by the harness); 'the spec changed' is decided by the "
+    "harness on the wire form (JSON of the Spec member) independently of the code under test and handed to the abstract "
+    "model as payload 0 vs 1",
     "kind 'ucx' = the strategies registered for UpstreamCluster (main + status endpoint) applied to a "
     "RateLimitCondition-typed object, because UpstreamClusterStatus is an empty struct and the status clauses could "
     "not be exercised on the real type otherwise (the strategies are reflect-generic)",
@@ -101,6 +105,7 @@ def corpus():
         cs.append(case(kind, "create", desc(), desc(-5)))
     cs.append(case("uc", "status", desc(-5), desc(7)))
     cs.append(case("uc", "status", desc(MAXI), desc(7, s=2, labels=[[1, 1]])))
+    cs += leaf_corpus()
     return cs
 
 
@@ -131,10 +136,49 @@ def gen_pair(rng):
     return case(kind, op, old, new, rng.chance(1, 4))
 
 
+# ----------------------------------------------------------------------------- real leaf fields of the Spec types
+# The harness enumerates the leaves of UpstreamClusterSpec / RateLimitSpec reflectively; a case names a leaf by
+# index (mod the number of leaves) and a value by index (mod the number of variants of the leaf's type:
+# strings "" / documented default / others, ints 0 1 2 -1, bools, nil / empty / one / two elements, nil / zero /
+# non-zero pointer). Whether the specs differ is reported by the harness from their wire form.
+LEAF_SPAN = 96          # more than the number of leaves of the largest Spec type (indices wrap)
+LEAF_VARIANT_PAIRS = [(0, 1), (1, 0), (1, 2), (2, 0), (0, 0), (3, 4)]
+
+
+def leaf_case(kind, populate, old_edits, new_edits, ann_old=None, ann_new=None, gen=5):
+    o = desc(gen, [[1, 1]], ann_old, None, 1, [1])
+    n = desc(gen, [[1, 1]], ann_new, None, 1, [1])
+    c = case(kind, "update", o, n, False)
+    c["leaf"] = {"populate": populate, "old": old_edits, "new": new_edits}
+    return c
+
+
+def leaf_corpus():
+    cs = []
+    for kind in ("uc", "rlc"):
+        span = LEAF_SPAN if kind == "uc" else 16
+        for i in range(span):
+            for k, (a, b) in enumerate(LEAF_VARIANT_PAIRS):
+                cs.append(leaf_case(kind, (i + k) % 2 == 0, [[i, a]], [[i, b]]))
+    return cs
+
+
+def gen_leaf(rng):
+    kind = "uc" if rng.chance(3, 4) else "rlc"
+    n = rng.choice([1, 1, 2, 3, 5])
+    leaves = [rng.below(LEAF_SPAN) for _ in range(n)]
+    common = [[rng.below(LEAF_SPAN), rng.below(5)] for _ in range(rng.below(4))]   # same edits on both sides
+    old = common + [[i, rng.below(5)] for i in leaves]
+    new = common + [[i, rng.below(5)] for i in leaves if rng.chance(3, 4)]
+    ann = rng.choice(KV)
+    return leaf_case(kind, rng.chance(1, 2), old, new, ann, ann if rng.chance(3, 4) else rng.choice(KV), rng.choice(GENS))
+
+
 def generate(rng, tier, scale=1):
     n, nb = (520, 40) if tier == "quick" else (8000, 400)
     n, nb = n * scale, nb * scale
     cs = [gen_pair(rng) for _ in range(n)]
+    cs += [gen_leaf(rng) for _ in range((200 if tier == "quick" else 6000) * scale)]
     edge = [MAXI, MAXI - 1, -1, -2 ** 63, 0, 2 ** 31, 2 ** 32]
     for _ in range(nb):   # boundary stream: generations at the int64 edges
         c = gen_pair(rng)
@@ -163,7 +207,24 @@ OP = {"create": "OpCreate", "update": "OpUpdate", "status": "OpStatus"}
 SUB = {"uc": True, "ucx": True, "rlc": False}
 
 
+def _abstract_leaf(case, obs):
+    """Leaf cases are handed to the (unchanged) abstract model: the spec payload of the stored object is 0, the one of
+    the submitted object is 1 iff the harness found the two wire forms different; the payload of the object to be
+    stored is the submitted one iff its wire form is the submitted spec's (anything else: 2 = disagreement)."""
+    case = copy.deepcopy(case)
+    obs = copy.deepcopy(obs)
+    differs = bool(obs.get("spec_differs"))
+    case["old"]["spec"] = {"s": 0, "c": None}
+    case["new"]["spec"] = {"s": 1 if differs else 0, "c": None}
+    if obs.get("res") == "ok":
+        obs["obj"]["spec"] = copy.deepcopy(case["new"]["spec"]) if obs.get("spec_kept") else {"s": 2, "c": None}
+        obs["old"]["spec"] = copy.deepcopy(case["old"]["spec"]) if obs.get("old_kept") else {"s": 2, "c": None}
+    return case, obs
+
+
 def coq_case(case, obs):
+    if case.get("leaf") and "panic" not in obs:
+        case, obs = _abstract_leaf(case, obs)
     head = "(Build_case %s %s %s %s " % (KIND[case["kind"]], OP[case["op"]],
                                                                   cobj(case["old"]), cobj(case["new"]))
     if "panic" in obs or obs.get("res") not in ("ok", "err", "noendpoint"):
@@ -182,6 +243,8 @@ def _diff(case):
 
 
 def nontrivial_key(case, obs):
+    if case.get("leaf"):
+        return repr((case["kind"], "leaf", case["leaf"], case["old"]["ann"], case["new"]["ann"]))
     if case["op"] == "create":
         if case["new"]["status"]["c"] or case["new"]["gen"] != 1:
             return repr((case["kind"], "create", case["new"], case["raw"]))
@@ -192,6 +255,15 @@ def nontrivial_key(case, obs):
 
 
 def stats(case, obs):
+    if case.get("leaf"):
+        labs = ["leaf:%s edits=%d/%d" % (case["kind"], len(case["leaf"]["old"]), len(case["leaf"]["new"])),
+                "leaf:spec_differs=%s" % obs.get("spec_differs"), "leaf:%s" % obs.get("res", "panic")]
+        if obs.get("res") == "ok":
+            g = obs["obj"]["gen"] - case["old"]["gen"]
+            labs.append("leaf:differs=%s gen%+d" % (obs.get("spec_differs"), g))
+        if len(case["leaf"]["old"]) == 1 and len(case["leaf"]["new"]) == 1 and obs.get("paths"):
+            labs.append("leafpath:" + obs["paths"][0].split("=")[0])
+        return labs
     labs = ["%s:%s->%s" % (case["kind"], case["op"], obs.get("res", "panic")), "decoded" if case["raw"] else "direct"]
     if case["op"] != "create":
         d = _diff(case)
@@ -209,6 +281,22 @@ def stats(case, obs):
 
 
 def shrink(case):
+    if case.get("leaf"):
+        lf = case["leaf"]
+        for side in ("old", "new"):
+            for i in range(len(lf[side])):
+                c = copy.deepcopy(case)
+                c["leaf"][side].pop(i)
+                yield c
+        if lf["populate"]:
+            c = copy.deepcopy(case)
+            c["leaf"]["populate"] = False
+            yield c
+        if case["old"]["ann"] != case["new"]["ann"]:
+            c = copy.deepcopy(case)
+            c["new"]["ann"] = copy.deepcopy(c["old"]["ann"])
+            yield c
+        return
     if case["op"] == "create":
         return
     for f in FIELDS:
